@@ -1479,6 +1479,22 @@ impl Builder {
         self
     }
 
+    /// Verification hook: same as `set_page_size`, available under `--cfg redb_verif`
+    #[cfg(redb_verif)]
+    pub fn verif_set_page_size(&mut self, size: usize) -> &mut Self {
+        assert!(size.is_power_of_two());
+        self.page_size = core::cmp::max(size, 512);
+        self
+    }
+
+    /// Verification hook: same as `set_region_size`, available under `--cfg redb_verif`
+    #[cfg(redb_verif)]
+    pub fn verif_set_region_size(&mut self, size: u64) -> &mut Self {
+        assert!(size.is_power_of_two());
+        self.region_size = Some(size);
+        self
+    }
+
     /// Set the amount of memory (in bytes) used for caching data
     pub fn set_cache_size(&mut self, bytes: usize) -> &mut Self {
         self.cache_size = bytes;
